@@ -17,7 +17,18 @@ def _floor_near_min(line):
     return MINV < fl <= MINV + s
 
 
+def _feb30_leap_year(line):
+    t = line.split()
+    if t[0] not in ("from_greg", "is_valid") or len(t) < 8:
+        return False
+    y, m, d = int(t[1]), int(t[2]), int(t[3])
+    return m == 2 and d in (30, 31) and is_leap(y)
+
+
 KNOWN = [
+    {"status": "known", "property": "C08", "id": "feb-30-31-leap-year", "pred": _feb30_leap_year,
+     "what": "is_gregorian_valid / maybe_from_gregorian accept 30 and 31 February in leap years (2020-02-30 -> 2020-03-01); "
+             "tests/epoch.rs:1092 (test_range) builds 2012-02-30, so it cannot be repaired with the suite unedited"},
     {"status": "known", "property": "C14", "id": "floor-one-step-above-min", "pred": _floor_near_min,
      "what": "Duration::floor/ceil/round: when the floor is within one step above Duration::MIN the result saturates to MIN "
              "((MIN + 10 s).floor(10 s) == MIN, pinned by tests/duration.rs:378)"},
